@@ -60,11 +60,11 @@ POS = {
 ALL_POS = ["top_let"] + sorted(POS)
 INCLUDE_VIA_IDF = {"binary_rhs", "reduce_cb", "filter_cb", "not", "in", "reduce_acc"}
 # positions whose import is *not* at the top level of a let (the ones the path rewriter has to reach through the walker)
-SPELL = ["plain", "dot", "dotdot", "redundant", "updown", "abs"]
+SPELL = ["plain", "dot", "dotdot", "redundant", "updown", "abs", "abs_redundant"]
 FORMS = ["let", "expr", "called_func"]
 PROBES = ["pos_" + p for p in ALL_POS] + ["fail_msg_site", "decoy_value_distinguishable", "three_spelling_same_file", "diamond",
                                          "back_edge_let", "back_edge_expr", "back_edge_called_func", "back_edge_at_position", "back_edge_in_module", "back_edge_in_callback", "cycle_len_1", "cycle_len_2", "cycle_len_3",
-                                         "back_edge_respelled", "include_site", "lib_level_site", "fault_with_decoy", "identical_twin_files", "back_edge_via_hof"]
+                                         "back_edge_respelled", "include_site", "lib_level_site", "fault_with_decoy", "identical_twin_files", "back_edge_via_hof", "entry_respelled"]
 DECOY_CWD = "decoy/d1/d2/d3"
 DIRSETS = [["", "lib"], ["", "lib", "lib/deep"], ["app", "lib"], ["app", "lib", "shared/x"], ["", "a", "a/b", "a/b/c"], ["app/svc", "lib", ""]]
 
@@ -137,7 +137,9 @@ def generate(rng, tier, idx):
     for f in files:
         f["sites"] = rng.shuffle(f["sites"])[:12]
     world = {"files": files, "data": data, "back_edge": None, "fault": None, "fail_site": None, "strict": True,
-             "entry_abs": [rng.chance(25), rng.chance(25), rng.chance(25)], "dirs": dirs}
+             "entry_abs": [rng.chance(25), rng.chance(25), rng.chance(25)], "dirs": dirs,
+             # how the entry file itself is spelled on the command line (the top-level path is joined to the cwd, not normalised)
+             "entry_spell": [rng.weighted([("plain", 6), ("dot", 2), ("dotdot", 2)]) for _ in range(3)]}
     # re-establish reachability after truncation
     reach = reachable(world)
     for j in range(1, n):
@@ -247,6 +249,9 @@ def spelled(frm_path, to_path, how, proj_abs):
         return "./" + rel
     if how == "abs":
         return proj_abs + "/" + to_path
+    if how == "abs_redundant":
+        # absolute, with segments that cancel out (the project directory's own name is known to exist)
+        return proj_abs + "/./../" + os.path.basename(proj_abs) + "/" + to_path.replace("/", "/./")
     raise ValueError(how)
 
 
@@ -506,6 +511,16 @@ def execute(world, sb, res):
     observed = {}
     for k, (cname, cwd) in enumerate(cwds):
         arg = proj_abs + "/" + entry if world["entry_abs"][k] else os.path.relpath(sb.p("proj/" + entry), sb.p(cwd))
+        es = world.get("entry_spell", ["plain"] * 3)[k]
+        if es == "dot" and not arg.startswith("/"):
+            arg = "./" + arg
+            res.probe("entry_respelled")
+        elif es == "dotdot":
+            # <dir of the entry>/../<that dir>/<entry>: the directory exists, so the OS and the lexical reading agree
+            d, b = os.path.split(arg)
+            last = os.path.basename(os.path.dirname(sb.p("proj/" + entry)))
+            arg = os.path.join(d, "..", last, b)
+            res.probe("entry_respelled")
         if sb.exists(art):
             sb.remove(art)
         argv = ["build", arg] if world["strict"] else ["--no-strict", "build", arg]
@@ -703,6 +718,8 @@ def shrink_candidates(world):
         yield dict(w, fail_site=dict(w["fail_site"], spelling="plain"))
     if any(w["entry_abs"]):
         yield dict(w, entry_abs=[False, False, False])
+    if any(x != "plain" for x in w.get("entry_spell", [])):
+        yield dict(w, entry_spell=["plain"] * 3)
     # flatten directories
     for i, f in enumerate(files):
         if "/" in f["path"]:
